@@ -276,8 +276,10 @@ def execute(case, ctx):
                          key="open:incomplete-snapshot-exposed", point=tag)
                     return None
         # content of the last two exposed snapshots (earlier ones read only bytes the crash never touched)
+        # (images of a restarted run - chains - contain snapshots written by a process with another wall-clock history: the walltime fields are not state)
+        dropw = WALLTIME_FIELDS if ">cycle" in tag else ()
         for k in sorted(set([n - 1, max(0, n - 2), 0])):
-            d = rb.S_diff(load_S(rebound, rb, cfg, sa, k), model_S[k])
+            d = rb.S_diff(load_S(rebound, rb, cfg, sa, k, drop=dropw), {f_: v_ for f_, v_ in model_S[k].items() if f_ not in dropw})
             if d:
                 viol("open", "exposed snapshot differs from the uninterrupted run", "%s: snapshot %d of %d fields %s" % (tag, k, n, rb.describe_fields(d)), point=tag)
                 return None
@@ -287,7 +289,7 @@ def execute(case, ctx):
                 try:
                     s2 = rebound.Simulation(ipath)
                     simgen.attach_callbacks(rebound, rb, s2, cfg)
-                    d = rb.S_diff(rb.S(s2), model_S[n - 1])
+                    d = rb.S_diff(rb.S(s2, drop=dropw), {f_: v_ for f_, v_ in model_S[n - 1].items() if f_ not in dropw})
                     if d:
                         viol("open", "Simulation(file) differs from last exposed snapshot", "%s fields %s" % (tag, rb.describe_fields(d)), point=tag)
                         return None
